@@ -69,3 +69,13 @@ MUTANTS += [
      "        H.add_edges_from((ee.members(e), e, deepcopy(attr)) for e, attr in ee.items())\n        H._net_attr = data._net_attr\n        return H\n\n    elif isinstance(data, DiHypergraph):", ["C07"], "Hypergraph(H) shares the network attribute dict"),
     ("M35", D, "        cp._net_attr = deepcopy(self._net_attr)\n\n        cp._edge_uid = copy(self._edge_uid)\n\n        return cp\n\n    def cleanup", "        cp._net_attr = dict(self._net_attr)\n\n        cp._edge_uid = copy(self._edge_uid)\n\n        return cp\n\n    def cleanup", ["C07"], "DiHypergraph.copy() shallow-copies network attributes"),
 ]
+
+MUTANTS += [
+    ("M40", "xgi/generators/randomizing.py", "    HH = H.copy()", "    HH = H", ["C08"], "node_swap works on its argument"),
+    ("M41", H, "        if in_place:\n            _H = self\n        else:\n            _H = self.copy()\n        if not multiedges:", "        _H = self\n        if not multiedges:", ["C08", "C19"], "cleanup(in_place=False) forgets the copy"),
+    ("M42", "xgi/algorithms/connected.py", "    if not in_place:\n        return subhypergraph(H, nodes=connected_nodes).copy()\n    else:\n        H.remove_nodes_from(set(H.nodes).difference(connected_nodes))",
+     "    H.remove_nodes_from(set(H.nodes).difference(connected_nodes))\n    if not in_place:\n        return H.copy()", ["C08", "C19"], "largest_connected_hypergraph prunes its argument when in_place=False"),
+    ("M43", V, "            {key: self._id_dict[key].copy() for key in self}\n            if n is None\n            else self._id_dict[n].copy()", "            {key: self._id_dict[key].copy() for key in self}\n            if n is None\n            else self._id_dict[n]", ["C08"], "memberships(n) hands out the internal set"),
+    ("M44", "xgi/core/globalviews.py", "    new._net_attr = H._net_attr.copy()", "    new._net_attr = H._net_attr\n    new._net_attr['sub'] = True", ["C08"], "subhypergraph writes into the source's network attributes"),
+    ("M45", "xgi/convert/hif_dict.py", "def to_hif_dict(H):", "def to_hif_dict(H):\n    H._net_attr.setdefault('network-type', 'undirected')", ["C08"], "to_hif_dict records the type in the input's attributes"),
+]
